@@ -64,6 +64,7 @@ class Profile:
         self.scoped_uses = True
         self.p_scoped = 0.2
         self.special_types = True
+        self.same_name_values = False  # instantiation values with one unqualified name in two namespaces (instantiator checks only)
         self.layout_defaults = False   # defaults with inner runs of blanks / line breaks (parser checks only)
         self.__dict__.update(kw)
 
@@ -238,6 +239,13 @@ class Gen:
                 seen = set()
                 for _ in range(k):
                     v = self.typename(2)
+                    if self.p.same_name_values and vals and r.random() < 0.35:
+                        # the same unqualified name in another namespace (ns1::A next to ns2::A)
+                        b = r.choice(vals)
+                        v = ('tn', list(b[1]) + [r.choice(['other', 'ns2', 'detail'])], b[2], b[3])
+                        self.count('same_name_values')
+                        vals.append(v)
+                        continue
                     key = iname(v)
                     # two values with the same instantiated name (a::X and b::X) give two classes of the same
                     # name and one output file (finding C10-instantiation-name-collision): kept apart here
@@ -336,7 +344,17 @@ class Gen:
         r = self.r
         t = self.template() if r.random() < self.p.p_template else None
         tp = tuple(t[1]) if t else ()
-        name = self.fresh(used_names, PLAIN_IDS)
+        name = None
+        if used_names and r.random() < 0.2:
+            # a name that extends, or is a proper prefix of, a name already declared in this scope (Pose / Pose3 / PoseGraph)
+            b = r.choice(sorted(used_names))
+            cand = b + r.choice(['3', 'Graph', 'X', '_2']) if r.random() < 0.6 or len(b) < 3 else b[:r.randint(2, len(b) - 1)]
+            if cand not in used_names and cand not in KEYWORDS and cand[0].isalpha():
+                name = cand
+                used_names.add(cand)
+                self.count('class_name_prefix_of_another')
+        if name is None:
+            name = self.fresh(used_names, PLAIN_IDS)
         base = None
         x = r.random()
         if x < 0.2:
